@@ -12,3 +12,6 @@ import Peppi.Props.C12
 #print axioms Peppi.Props.C12.parseEventS_frag
 #print axioms Peppi.Props.C12.parseHeaderS_frag
 #print axioms Peppi.Props.C12.parseStartS_frag
+#print axioms Peppi.Props.C12.local_parseStart
+#print axioms Peppi.Props.C12.local_parseEvent
+#print axioms Peppi.Props.C12.local_parseMetadata
